@@ -99,6 +99,50 @@ def check_extraction_copies(prog: Program, rep: Report):
     return entries
 
 
+def check_insert_complete(prog: Program, rep: Report) -> None:
+    """R13.4: insert_into_global_state writes every field of every unit of the out-state, unconditionally (shared with C12, C17)"""
+    sh = prog.class_named("TreeStateHandler")
+    if sh is None:
+        raise AnalysisError("TreeStateHandler not found")
+    file = sh.file
+    # ---- R13.4 insert complete ----------------------------------------------------------------------------------------------
+    ins = sh.methods.get("insert_into_global_state")
+    if ins is None:
+        raise AnalysisError("insert_into_global_state not found")
+    ins = canon(prog, sh, ins)
+    loops = [n for n in body_without_docstring(ins) if isinstance(n, ast.For)]
+    loc = Loc(file, ins.lineno, f"{sh.name}.{ins.name}")
+    if len(loops) != 1:
+        rep.ob("R13.4-insert-complete", None, loc, ins.name, "idiom not recognised")
+    else:
+        lp = loops[0]
+        var = norm(lp.target)
+        txt = " ; ".join(norm(s) for s in lp.body)
+        conds = {
+            "position written": f"_physical_state.set(" in txt and f"{var}.value.position" in txt,
+            "velocity written": f"{var}.value.velocity" in txt and "_lifting_state.set(" in txt,
+            "time stamp written": f"{var}.value.time_stamp" in txt,
+            "children inserted": f"insert_into_global_state({var}.children)" in " ; ".join(norm(x) for s_ in lp.body for x in ast.walk(s_) if isinstance(x, ast.Call)) or _full_traversal(prog, sh, lp.iter, param_names(ins)),
+            "iterates the whole out-state": norm(lp.iter) in param_names(ins) or _full_traversal(prog, sh, lp.iter, param_names(ins)),
+            "keyed by the cnode's identifier": f"{var}.value.identifier" in txt,
+        }
+        for what, good in conds.items():
+            rep.ob("R13.4-insert-complete", bool(good), Loc(file, lp.lineno, loc.qual), f"insert: {what}",
+                   f"insertion must cover every field and every child: not {what}")
+        def empty_guard(s: ast.stmt) -> bool:
+            """`if <seq>:` (also `len(<seq>) > 0`, `<seq> != []`) around nothing but the recursion on <seq>: a no-op on an empty sequence"""
+            if not isinstance(s, ast.If) or s.orelse or len(s.body) != 1 or not isinstance(s.body[0], ast.Expr):
+                return False
+            c = s.body[0].value
+            if not (isinstance(c, ast.Call) and isinstance(c.func, ast.Attribute) and c.func.attr == "insert_into_global_state" and len(c.args) == 1):
+                return False
+            a, t = norm(c.args[0]), norm(s.test)
+            return t in (a, f"len({a}) > 0", f"len({a}) != 0", f"{a} != []", f"len({a})", f"0 < len({a})")
+        top_level = all(not isinstance(s, (ast.If, ast.Try)) or empty_guard(s) for s in lp.body)
+        rep.ob("R13.4-insert-unconditional", top_level, Loc(file, lp.lineno, loc.qual), "insert: no conditional skip",
+               "exactly the inserted values must be read back: no field may be skipped conditionally")
+
+
 def analyse(src: Source) -> List[Report]:
     rep = Report(ID, src)
     rep.explain(
@@ -126,13 +170,17 @@ def analyse(src: Source) -> List[Report]:
             return over_levels(it.args[0])
         if isinstance(it, ast.Call) and norm(it.func) == "range" and len(it.args) == 2:
             return norm(it.args[0]) == "1" and norm(it.args[1]) == "len(identifier)"
+        if isinstance(it, ast.Call) and norm(it.func).split(".")[-1] == "islice" and len(it.args) in (2, 3) and norm(it.args[0]) == "identifier":
+            return norm(it.args[1]) == "1" and (len(it.args) == 2 or norm(it.args[2]) == "None")
         return isinstance(it, ast.Subscript) and norm(it.value) == "identifier" and isinstance(it.slice, ast.Slice) \
             and it.slice.lower is not None and norm(it.slice.lower) == "1" and it.slice.upper is None and it.slice.step is None
-    prefix_loops = [n for n in flat(efg.body) if isinstance(n, ast.For) and over_levels(n.iter)]
+    efg_raw = efg
+    efg = canon(prog, sh, efg)          # the chain of ancestors / the attachment of the descendants may live in private helpers
+    prefix_loops = [n for n in ast.walk(efg) if isinstance(n, ast.For) and over_levels(n.iter)]
     rep.ob("R13.1-ancestors", len(prefix_loops) == 1,
            Loc(file, efg.lineno, entries[0].qual), "prefix loop over identifier levels",
            "the branch must contain every ancestor level of the identifier (loop over the levels 1 .. len(identifier) - 1)")
-    child_loops = [n for n in efg.body if isinstance(n, ast.For) and ".children" in norm(n.iter)]
+    child_loops = [n for form_ in (efg, efg_raw) for n in ast.walk(form_) if isinstance(n, ast.For) and ".children" in norm(n.iter)]
     rec_ok = False
     helper_name = None
     for lp in child_loops:
@@ -157,6 +205,13 @@ def analyse(src: Source) -> List[Report]:
                     if not rec_ok and len(whole) == 1:
                         rec_ok = any(isinstance(x, ast.Call) and isinstance(x.func, ast.Attribute) and x.func.attr == "add_child"
                                      for x in ast.walk(whole[0]))
+    if not rec_ok:
+        # the helper read in place: under a loop over the children, an unconditional loop over all nodes below the child that attaches copies
+        for lp in child_loops:
+            for n in ast.walk(lp):
+                if isinstance(n, ast.For) and isinstance(n.iter, ast.Call) and norm(n.iter.func) == "__subtree_nodes__" \
+                        and any(isinstance(x, ast.Call) and isinstance(x.func, ast.Attribute) and x.func.attr == "add_child" for x in ast.walk(lp)):
+                    rec_ok = True
     rep.ob("R13.1-descendants", rec_ok, Loc(file, efg.lineno, entries[0].qual), f"recursive helper {helper_name}",
            "the branch must contain all descendants of the node (recursive construction over children)")
     act = entries[1].fn
@@ -170,7 +225,10 @@ def analyse(src: Source) -> List[Report]:
         def per_identifier(elt: ast.AST, var: ast.AST, it: ast.AST, filtered: bool) -> bool:
             return isinstance(elt, ast.Call) and norm(elt.func).endswith("extract_from_global_state") and len(elt.args) == 1 \
                 and norm(elt.args[0]) == norm(var) and norm(it).endswith("yield_independent_lifted_identifiers()") and not filtered
-        if isinstance(rv, ast.ListComp) and len(rv.generators) == 1:
+        if isinstance(rv, ast.Call) and isinstance(rv.func, ast.Name) and rv.func.id == "list" and len(rv.args) == 1 \
+                and isinstance(rv.args[0], (ast.GeneratorExp, ast.ListComp)):
+            rv = rv.args[0]
+        if isinstance(rv, (ast.ListComp, ast.GeneratorExp)) and len(rv.generators) == 1:
             g = rv.generators[0]
             ok = per_identifier(rv.elt, g.target, g.iter, bool(g.ifs))
         elif isinstance(rv, ast.Name):
@@ -275,6 +333,72 @@ def analyse(src: Source) -> List[Report]:
             if tgt is not None and ci is not None and (ci is ls or prog.is_subclass(ci, "LiftingState")):
                 rep.ob("R13.3-lifting-store-writer", fn.name in allowed_mutators, Loc(mi.file, n.lineno, f"{ci.name}.{fn.name}"),
                        n, "the lifting dictionaries are changed outside set / _delete")
+    # the setters REPLACE what is stored for an identifier, they never change a stored object in place: inserted values are kept by
+    # reference, so two identifiers may share one list / Time object after a commit, and an in-place update of one entry would change
+    # the other identifier without a commit of it
+    MUT = ("update", "append", "extend", "insert", "clear", "sort", "reverse", "pop", "remove", "add", "discard", "setdefault")
+    n_set = 0
+    for mi, ci, fn in prog.functions():
+        if ci is None or fn.name != "set" or not (prog.is_subclass(ci, "LiftingState") or prog.is_subclass(ci, "PhysicalState")):
+            continue
+        n_set += 1
+        from ..writers import root_name
+        stored: set = set()
+        for _ in range(3):
+            for a in ast.walk(fn):
+                if isinstance(a, ast.Assign) and len(a.targets) == 1:
+                    names_ = [x.id for x in ast.walk(a.targets[0]) if isinstance(x, ast.Name) and isinstance(x.ctx, ast.Store)]
+                    src_root = root_name(a.value) if not isinstance(a.value, ast.Call) else None
+                    if names_ and isinstance(a.targets[0], (ast.Name, ast.Tuple, ast.List)) and (
+                            (src_root == "self" and isinstance(a.value, ast.Subscript)) or src_root in stored):
+                        stored.update(names_)
+        bad_ = []
+        for x in ast.walk(fn):
+            if isinstance(x, ast.Subscript) and isinstance(x.ctx, (ast.Store, ast.Del)) and isinstance(x.value, ast.Name) and x.value.id in stored:
+                bad_.append(x)
+            if isinstance(x, ast.Call) and isinstance(x.func, ast.Attribute) and x.func.attr in MUT and isinstance(x.func.value, ast.Name) \
+                    and x.func.value.id in stored:
+                bad_.append(x)
+            if isinstance(x, ast.AugAssign) and isinstance(x.target, ast.Name) and x.target.id in stored:
+                bad_.append(x)
+        rep.ob("R13.3-setter-replaces", not bad_, Loc(mi.file, (bad_[0].lineno if bad_ else fn.lineno), f"{ci.name}.set"),
+               bad_[0] if bad_ else f"{ci.name}.set: stored values are replaced, not mutated",
+               "the setter changes an object it read from the store in place: values are stored by reference, so every other identifier "
+               "(or in-state) that shares the object changes without being committed")
+    rep.expect_min("R13.3-setter-replaces", 2)
+    # ... and they store the inserted value itself (or a plain copy): what is read back after a commit is exactly what was inserted
+    for mi, ci, fn in prog.functions():
+        if ci is None or fn.name != "set" or not (prog.is_subclass(ci, "LiftingState") or prog.is_subclass(ci, "PhysicalState")):
+            continue
+        fc = canon(prog, ci, fn)
+        value_params = param_names(fc)[1:]
+
+        def identity_like(e: ast.AST, p_: str) -> Optional[bool]:
+            """True: e is p_ / a copy of p_ / a display holding it; False: computed from p_; None: does not involve p_"""
+            if not any(isinstance(x, ast.Name) and x.id == p_ for x in ast.walk(e)):
+                return None
+            if isinstance(e, ast.Name):
+                return True
+            if isinstance(e, (ast.Tuple, ast.List)):
+                rs = [identity_like(x, p_) for x in e.elts]
+                return False if False in rs else True
+            if isinstance(e, ast.Call) and len(e.args) == 1 and not e.keywords and norm(e.func).split(".")[-1] in ("copy", "list", "tuple", "deepcopy"):
+                return identity_like(e.args[0], p_)
+            if isinstance(e, ast.Subscript) and isinstance(e.slice, ast.Slice) and e.slice.lower is None and e.slice.upper is None:
+                return identity_like(e.value, p_)
+            if isinstance(e, ast.IfExp):
+                rs = [identity_like(x, p_) for x in (e.body, e.orelse)]
+                return False if False in rs else True
+            return False
+        for p_ in value_params:
+            stores_ = [a for a in ast.walk(fc) if isinstance(a, ast.Assign) and any(isinstance(t, (ast.Attribute, ast.Subscript)) for t in a.targets)]
+            verdicts = [(identity_like(a.value, p_), a) for a in stores_]
+            computed = [a for v_, a in verdicts if v_ is False]
+            if not any(v_ is not None for v_, _ in verdicts):
+                continue
+            rep.ob("R13.3-setter-stores-given-value", not computed, Loc(mi.file, (computed[0].lineno if computed else fn.lineno), f"{ci.name}.set"),
+                   computed[0] if computed else f"{ci.name}.set({p_}): stored as given",
+                   f"the stored value is computed from `{p_}` instead of being `{p_}` itself: the global state no longer reads back what a commit inserted")
     # callers of <x>._physical_state.set / _lifting_state.set and of insert_into_global_state
     for mi, ci, fn in prog.functions():
         if mi.file.startswith("jellyfysh/input_output_handler/output_handler/") and False:
@@ -297,42 +421,43 @@ def analyse(src: Source) -> List[Report]:
                 rep.ob("R13.3-insert-callers", ok, Loc(mi.file, n.lineno, f"{ci.name if ci else ''}.{fn.name}"), n,
                        "insert_into_global_state is called outside the commit step of a mediator's run loop: between two "
                        "commits the global state must not change")
-    # ---- R13.4 insert complete ----------------------------------------------------------------------------------------------
-    ins = sh.methods.get("insert_into_global_state")
-    if ins is None:
-        raise AnalysisError("insert_into_global_state not found")
-    ins = canon(prog, sh, ins)
-    loops = [n for n in body_without_docstring(ins) if isinstance(n, ast.For)]
-    loc = Loc(file, ins.lineno, f"{sh.name}.{ins.name}")
-    if len(loops) != 1:
-        rep.ob("R13.4-insert-complete", None, loc, ins.name, "idiom not recognised")
-    else:
-        lp = loops[0]
-        var = norm(lp.target)
-        txt = " ; ".join(norm(s) for s in lp.body)
-        conds = {
-            "position written": f"_physical_state.set(" in txt and f"{var}.value.position" in txt,
-            "velocity written": f"{var}.value.velocity" in txt and "_lifting_state.set(" in txt,
-            "time stamp written": f"{var}.value.time_stamp" in txt,
-            "children inserted": f"insert_into_global_state({var}.children)" in txt or _full_traversal(prog, sh, lp.iter, param_names(ins)),
-            "iterates the whole out-state": norm(lp.iter) in param_names(ins) or _full_traversal(prog, sh, lp.iter, param_names(ins)),
-            "keyed by the cnode's identifier": f"{var}.value.identifier" in txt,
-        }
-        for what, good in conds.items():
-            rep.ob("R13.4-insert-complete", bool(good), Loc(file, lp.lineno, loc.qual), f"insert: {what}",
-                   f"insertion must cover every field and every child: not {what}")
-        top_level = all(not isinstance(s, (ast.If, ast.Try)) for s in lp.body)
-        rep.ob("R13.4-insert-unconditional", top_level, Loc(file, lp.lineno, loc.qual), "insert: no conditional skip",
-               "exactly the inserted values must be read back: no field may be skipped conditionally")
+    check_insert_complete(prog, rep)
     # ---- R13.5 / R13.6 -----------------------------------------------------------------------------------------------------------
     for h in concrete_handlers(prog):
         hp = HandlerProtocol(prog, h, rep, ["R8.5"])
         hp.run()
     seen = set()
+    def _clears_through_call(s_: ast.stmt, src_recv_: str, field_: str, mi_, ci_) -> bool:
+        """`deactivate(src)`: a call with the source unit as argument to a routine that sets `<parameter>.<field> = None`"""
+        if not (isinstance(s_, ast.Expr) and isinstance(s_.value, ast.Call)):
+            return False
+        c_ = s_.value
+        pos_ = [i_ for i_, a_ in enumerate(c_.args) if norm(a_) == src_recv_]
+        if not pos_:
+            return False
+        callee = None
+        if isinstance(c_.func, ast.Name):
+            r_ = prog.resolve_name(mi_, c_.func.id)
+            callee = r_[2] if isinstance(r_, tuple) and len(r_) == 3 and r_[0] == "func" else None
+            skip_ = 0
+        elif isinstance(c_.func, ast.Attribute) and isinstance(c_.func.value, ast.Name) and c_.func.value.id == "self" and ci_ is not None:
+            r_ = prog.resolve_method(ci_, c_.func.attr)
+            callee = r_[1] if r_ else None
+            skip_ = 1
+        if not isinstance(callee, ast.FunctionDef):
+            return False
+        ps_ = [a_.arg for a_ in callee.args.args][skip_:]
+        if pos_[0] >= len(ps_):
+            return False
+        pn_ = ps_[pos_[0]]
+        return any(isinstance(a_, ast.Assign) and isinstance(a_.value, ast.Constant) and a_.value.value is None
+                   and any(norm(t_) == f"{pn_}.{field_}" for t_ in a_.targets) for a_ in ast.walk(callee))
     for mi, ci, fn in prog.functions():
-        if ci is None or not prog.is_subclass(ci, "EventHandler"):
+        if ci is None and not mi.file.startswith("jellyfysh/event_handler/"):
             continue
-        fn = canon(prog, ci, fn, helpers=False)
+        if ci is not None and not prog.is_subclass(ci, "EventHandler"):
+            continue
+        fn = canon(prog, ci, fn, helpers=False) if ci is not None else fn
         parents = parent_map(fn)
         for stmt, field, recv, elementwise, value in stores(fn):
             if field not in ("velocity", "time_stamp", "position") or value is None or elementwise:
@@ -347,9 +472,10 @@ def analyse(src: Source) -> List[Report]:
                         block = b
                 src_recv = norm(value.value)
                 moved = block is not None and any(
-                    isinstance(s, ast.Assign) and isinstance(s.value, ast.Constant) and s.value.value is None
-                    and any(norm(t) == f"{src_recv}.{field}" for t in s.targets) for s in block[block.index(stmt):])
-                rep.ob("R13.6-move-or-copy", moved, Loc(mi.file, stmt.lineno, f"{ci.name}.{fn.name}"), stmt,
+                    (isinstance(s, ast.Assign) and isinstance(s.value, ast.Constant) and s.value.value is None
+                     and any(norm(t) == f"{src_recv}.{field}" for t in s.targets)) or _clears_through_call(s, src_recv, field, mi, ci)
+                    for s in block[block.index(stmt):])
+                rep.ob("R13.6-move-or-copy", moved, Loc(mi.file, stmt.lineno, f"{ci.name + '.' if ci else ''}{fn.name}"), stmt,
                        f"`{norm(recv)}.{field}` aliases `{src_recv}.{field}` without the source being cleared in the same "
                        f"block: two units of an out-state would share one mutable object")
     rep.expect_min("R13.1-copied-field", 3)
